@@ -41,4 +41,10 @@ def jobs(tier):
                          assumes=["no allocation failure", "string bytes are non-NUL ASCII"],
                          bounds=f"signature '{sig}', every array {acnt} element(s), every string {slen} byte(s), variants contain '{vsig}', byte order {'little' if o == 'l' else 'big'}; all values symbolic" + ("" if _validator_ok(sig) else "; step (3), the real validator, is skipped for this shape (arrays of variable-size elements: no verdict in 400 s / 16 GB; the validator on such shapes is C01's subject)"),
                          shape=f"writer round trip {sig} A{acnt} S{slen} V{vsig}"))
+    # ---- C02.d: header field positions of long headers (the field cache of dbus-marshal-header.c keeps any position up to the message size limit); harness and jobs of C12
+    import importlib.util, os
+    spec = importlib.util.spec_from_file_location("vfjobs_x_C12", os.path.join(os.path.dirname(__file__), "C12.py")); m = importlib.util.module_from_spec(spec); m.Job = Job; spec.loader.exec_module(m)
+    for j in m.jobs(tier):
+        if ".far." in j.name:
+            j.name = "d.header_cache." + j.name.replace("edit.", ""); j.group = "C02.d"; J.append(j)
     return J
